@@ -21,18 +21,23 @@ def gen_case(rng, k, big):
         n = rng.randint(9, 80)
     sa, da = rng.sample(range(0, 254), 2)
     pf = rng.choice([x for x in range(0, 240) if x not in (0xEA, 0xEB, 0xEC, 0xEE, 0x4D, 0x4E, 0x25)])
+    if rng.random() < 0.3:
+        da = 255                      # broadcast (BAM): theorem C01_bam_closed_loop_delivers
+        if n > 400:
+            n = rng.randint(9, 120)
     return dict(n=n, sa=sa, da=da, pf=pf, dp=rng.choice([0, 0, 1]), prio=rng.randint(0, 7),
                 wa=rng.choice(WINDOWS + [rng.randint(1, 255)]), wb=rng.choice(WINDOWS + [rng.randint(1, 255)]),
                 lat=rng.choice([1, 500]), seed=rng.getrandbits(30), fnone=rng.random() < 0.3)
 
 
 def scenario(c):
-    subs_b = [dict(cid=7, filt=c['da'])] + ([dict(cid=9, filt=None)] if c['fnone'] else [])
+    subs_b = [dict(cid=7, filt=(c['da'] if c['da'] != 255 else (c['sa'] + 1) % 254))] + ([dict(cid=9, filt=None)] if c['fnone'] else [])
     stacks = [dict(dll='j1939-21', max_cmdt=c['wa'], subs=[dict(cid=1, filt=c['sa'])], cas=[]),
               dict(dll='j1939-21', max_cmdt=c['wb'], subs=subs_b, cas=[])]
     npk = (c['n'] + 6) // 7
     script = [dict(t=1000, s=0, op='send', a=[c['dp'], c['pf'], c['da'], c['prio'], c['sa'], dict(seed=c['seed'], len=c['n'])])]
-    return dict(stacks=stacks, lat=[c['lat']], jit=[1], script=script, horizon=1000 + npk * 12000 + 3_000_000)
+    return dict(stacks=stacks, lat=[c['lat']], jit=[1], script=script,
+                horizon=1000 + npk * (60000 if c['da'] == 255 else 12000) + 3_000_000)
 
 
 def observe_impl(sc, res):
@@ -48,7 +53,7 @@ def observe_impl(sc, res):
 
 def model_text(c, data):
     a = 'subscribe (init_node %d None None) 1 (FAddr %d)' % (c['wa'], c['sa'])
-    b = 'subscribe (init_node %d None None) 7 (FAddr %d)' % (c['wb'], c['da'])
+    b = 'subscribe (init_node %d None None) 7 (FAddr %d)' % (c['wb'], c['da'] if c['da'] != 255 else (c['sa'] + 1) % 254)
     if c['fnone']:
         b = 'subscribe (%s) 9 FNone' % b
     npk = (c['n'] + 6) // 7
